@@ -84,6 +84,8 @@ M = [
      "                    previous_artifact = None;\n                    if let Some(search) = current_search.take() {\n                        previous_artifact = Some(search.wait_cancel());\n                    }"),
     ("C17_history_lookup_ignores_the_lowest_key_bit", "weechess-engine/src/searcher.rs",
      "        self.states.get(hash)\n", "        self.states.get(&(*hash | 1)).or_else(|| self.states.get(&(*hash & !1)))\n"),
+    ("C02_ambiguous_query_applies_the_first_match", "weechess-core/src/state.rs",
+     "                [mv] => {\n", "                [mv, ..] => {\n"),
     ("C15_access_stores_under_shifted_key", "weechess-engine/src/searcher.rs",
      "        self.tables[index].write().unwrap().insert(hash, entry);", "        self.tables[index].write().unwrap().insert(hash >> 7, entry);"),
 ]
